@@ -45,3 +45,6 @@ func Wait()
 // clock-package stubs so that native replays read the model's instants.
 func ClockNow() time.Time
 func ClockNano() uint64
+
+// HashLookup is only used by the native replay build (hash stubs).
+func HashLookup(name string, data []byte) ([]byte, bool)
